@@ -501,6 +501,8 @@ def run(ctx):
     r16_8(ctx, fx)
     r16_9(ctx, fx)
     r16_10(ctx, fx)
+    from common import check_no_dropped_futures
+    check_no_dropped_futures(ctx, fx, "R16.11", r"^protocol::libp2p::kademlia::.*::\{closure#0\}(::\{closure#\d+\})*$", "kademlia", 16)
     # a request / query parked behind a dial is settled only if the dial's outcome is reported: the transport manager's obligations
     # R05.9 (stated in rules/C05.py) are part of this property's argument and evaluated here too
     import C05
